@@ -280,7 +280,7 @@ def _new_frame_fragment(cname):
 
 
 for _c in FRAGMENTABLE:
-    harness('c03.new_frame_fragment[%s]' % _c, ['C03', 'C08', 'C01'], functions=[FR + 'new_frame_fragment', FRAG + '.__init__'])(
+    harness('c03.new_frame_fragment[%s]' % _c, ['C03', 'C08', 'C01', 'C06'], functions=[FR + 'new_frame_fragment', FRAG + '.__init__'])(
         _new_frame_fragment(_c))
 
 
